@@ -1,13 +1,18 @@
 //@unit tier=quick rlimit=60
 // C04 (cover tree, k-NN part): CoverTree::find(p, k), relative to the same premises as C04/cover_radius.rs (tree_wf, the
 // triangle inequality metric_on, idealised reals A-REAL) plus `dist_bounded` (no distance exceeds F::max_value(), the
-// sentinel the code puts into the heap).  Proved: Err exactly for k == 0 || k > n; Ok(v): exactly k entries, each the true
-// (index, distance, point) of a data point, indices pairwise different; every returned entry lies within the final heap
-// bound u, EVERY data point within u is a candidate (nothing as close as the k-th best is pruned: the pruning lemma
-// with the code's test `d <= upper_bound + child.max_dist`), there are at least k candidates, and when there are exactly k
-// the answer is the k nearest.  NOT decided: which k of MORE than k candidates are returned (ties at the bound): that
-// rests on `sort_by(|a, b| a.1.partial_cmp(&b.1).unwrap())`, and an exec closure in verbatim text carries no `ensures`
-// in this Verus (C04/inc/sort_by_spec.rs).
+// sentinel the code puts into the heap) and the size premise n <= usize::MAX / 2.
+// PROVED (all inputs): memory safety, termination; Err exactly for k == 0 || k > n; Ok(v): exactly k entries, each the
+// true (index, distance, point) of a data point, indices pairwise different (knn_shape); and (knn_bound) there is a bound u
+// -- a maximum of the heap at the end -- with: every returned entry lies within u; at least k data points lie within u and
+// fewer than k strictly inside (u IS the k-th smallest distance); every data point within u is a candidate (nothing as
+// close as the k-th best is pruned: lemma_prune with the code's test `d <= upper_bound + child.max_dist`, the bound never
+// grows, no point is offered to the heap twice); and if exactly k data points lie within u (no tie at the k-th distance)
+// the answer is the k nearest (k_nearest).
+// NOT decided: which k of MORE than k candidates are returned (ties at the k-th distance), i.e. k_nearest on the
+// `neighbors.len() > k` path: that rests on `sort_by(|a, b| a.1.partial_cmp(&b.1).unwrap())`, and an exec closure in
+// verbatim text carries no `ensures` in this Verus, so "ascending by distance" is not available (C04/inc/sort_by_spec.rs:
+// only "permutation" is used).  HeapSelection enters through the contracts of C04/heap_select.rs (C04/inc/heap_contracts.rs).
 //@include prelude/uses.rs
 use std::fmt::Debug;
 use vstd::multiset::Multiset;
@@ -99,7 +104,16 @@ impl<T: Debug + PartialEq, F: RealNumber + Debug, D: Distance<T, F>> CoverTree<T
         &&& forall|t: int| 0 <= t < added.len() ==> 0 <= #[trigger] added[t] < self.data@.len()
         &&& forall|s: int, t: int| 0 <= s < t < added.len() ==> added[s] != added[t]
         &&& hp.heap@.to_multiset().subset_of(self.dists(p, added).to_multiset().insert(F::max_value_spec()))
-        &&& hp.n < k ==> hp.heap@.contains(F::max_value_spec())
+        // not yet full: everything offered is kept; full: whatever was left out is at least as large as everything kept
+        &&& hp.n < k ==> hp.heap@.to_multiset() == self.dists(p, added).to_multiset().insert(F::max_value_spec())
+        &&& hp.n >= k ==> forall|v: F| self.dists(p, added).to_multiset().insert(F::max_value_spec()).count(v) > #[trigger] hp.heap@.to_multiset().count(v)
+                ==> forall|t: int| 0 <= t < hp.heap@.len() ==> le(#[trigger] hp.heap@[t], v)
+    }
+    // "data point i lies strictly inside u"
+    spec fn near(&self, p: &T, u: F) -> spec_fn(int) -> bool { |i: int| lt(self.dist_to(p, i), u) }
+    // every data point strictly inside the bound has been offered to the heap or still has a leaf to be offered
+    spec fn near_ok(&self, p: &T, u: F, added: Seq<int>, next: Seq<(F, &Node<F>)>, kids: Seq<Node<F>>, c: int, cs: Seq<(F, &Node<F>)>, j: int) -> bool {
+        forall|i: int| 0 <= i < self.data@.len() && lt(self.dist_to(p, i), u) ==> added.contains(i) || #[trigger] fresh(next, kids, c, cs, j, i) >= 1
     }
     // entries of the zero set: leaves with their true distance
     spec fn leaves_ok(&self, p: &T, zs: Seq<(F, &Node<F>)>) -> bool {
@@ -127,12 +141,13 @@ impl<T: Debug + PartialEq, F: RealNumber + Debug, D: Distance<T, F>> CoverTree<T
         forall|j: int, a: int| 0 <= j < self.data@.len() && 0 <= a < v.len() && (forall|b: int| 0 <= b < v.len() ==> (#[trigger] v[b]).0 != j)
             ==> val((#[trigger] v[a]).1) <= val(#[trigger] self.dist_to(p, j))
     }
-    // what is proved about WHICH points are returned: all lie within a bound u that at least k data points meet, and if
-    // exactly k data points meet it the answer is the k nearest
+    // what is proved about WHICH points are returned: all lie within u = the k-th smallest distance (at least k data points
+    // lie within u, fewer than k strictly inside), and if exactly k data points lie within u the answer is the k nearest
     spec fn knn_bound(&self, p: &T, k: usize, v: Seq<(usize, F, &T)>) -> bool {
         exists|u: F| {
             &&& forall|a: int| 0 <= a < v.len() ==> #[trigger] self.within(p, u, v[a].0 as int)
             &&& count_range(#[trigger] self.good(p, u), self.nn()) >= k
+            &&& count_range(self.near(p, u), self.nn()) < k
             &&& count_range(self.good(p, u), self.nn()) == k ==> self.k_nearest(p, v)
         }
     }
@@ -200,6 +215,73 @@ impl<T: Debug + PartialEq, F: RealNumber + Debug, D: Distance<T, F>> CoverTree<T
         lemma_nfl_cov_push(next, x, 0, xi);
     }
 
+    // ---- "every strictly closer point has been offered or is still to come" ----
+    proof fn lemma_near_same(&self, p: &T, u: F, added: Seq<int>, next: Seq<(F, &Node<F>)>, kids: Seq<Node<F>>, c: int, cs: Seq<(F, &Node<F>)>, j: int,
+                             next2: Seq<(F, &Node<F>)>, kids2: Seq<Node<F>>, c2: int, cs2: Seq<(F, &Node<F>)>, j2: int)
+        requires
+            self.near_ok(p, u, added, next, kids, c, cs, j),
+            forall|i: int| #[trigger] fresh(next2, kids2, c2, cs2, j2, i) == fresh(next, kids, c, cs, j, i),
+        ensures
+            self.near_ok(p, u, added, next2, kids2, c2, cs2, j2),
+    {
+        assert forall|i: int| 0 <= i < self.data@.len() && lt(self.dist_to(p, i), u) implies added.contains(i) || #[trigger] fresh(next2, kids2, c2, cs2, j2, i) >= 1 by {
+            assert(added.contains(i) || fresh(next, kids, c, cs, j, i) >= 1);
+        }
+    }
+    proof fn lemma_near_mono(&self, p: &T, u1: F, u2: F, added: Seq<int>, next: Seq<(F, &Node<F>)>, kids: Seq<Node<F>>, c: int, cs: Seq<(F, &Node<F>)>, j: int)
+        requires
+            self.near_ok(p, u1, added, next, kids, c, cs, j),
+            val(u2) <= val(u1),
+        ensures
+            self.near_ok(p, u2, added, next, kids, c, cs, j),
+    {
+        axiom_real::<F>();
+        assert forall|i: int| 0 <= i < self.data@.len() && lt(self.dist_to(p, i), u2) implies added.contains(i) || #[trigger] fresh(next, kids, c, cs, j, i) >= 1 by {
+            assert(lt(self.dist_to(p, i), u1));
+        }
+    }
+    // child c is dealt with: kept (queued, or collected as a leaf) -- then, if it is a non-first child strictly inside the new
+    // bound, its point is among the offered ones; or dropped -- then nothing below it lies within the bound ub used
+    proof fn lemma_near_child(&self, p: &T, ub: F, u2: F, added: Seq<int>, added2: Seq<int>, next0: Seq<(F, &Node<F>)>, next2: Seq<(F, &Node<F>)>,
+                              kids: Seq<Node<F>>, c: int, cs: Seq<(F, &Node<F>)>, j: int, x: (F, &Node<F>))
+        requires
+            self.near_ok(p, ub, added, next0, kids, c, cs, j),
+            val(u2) <= val(ub),
+            forall|t: int| 0 <= t < added.len() ==> added2.contains(#[trigger] added[t]),
+            0 <= c < kids.len(),
+            *x.1 == kids[c],
+            self.node_wf(kids[c]),
+            ({
+                ||| ((next2 == next0.push(x) || (next2 == next0 && kids[c].children@.len() == 0))
+                        && (c >= 1 && lt(self.dist_to(p, kids[c].idx as int), u2) ==> added2.contains(kids[c].idx as int)))
+                ||| (next2 == next0 && forall|i: int| 0 <= i < self.data@.len() && #[trigger] nl(kids[c], i) > 0 ==> !self.within(p, ub, i))
+            }),
+        ensures
+            self.near_ok(p, u2, added2, next2, kids, c + 1, cs, j),
+    {
+        axiom_real::<F>();
+        lemma_fresh_drop_bound(next0, kids, c, cs, j);
+        let xi = kids[c].idx as int;
+        assert forall|i: int| 0 <= i < self.data@.len() && lt(self.dist_to(p, i), u2) implies added2.contains(i) || #[trigger] fresh(next2, kids, c + 1, cs, j, i) >= 1 by {
+            assert(lt(self.dist_to(p, i), ub));
+            assert(self.within(p, ub, i));
+            if added.contains(i) {
+                let t = choose|t: int| 0 <= t < added.len() && added[t] == i;
+                assert(added2.contains(added[t]));
+            } else {
+                assert(fresh(next0, kids, c, cs, j, i) >= 1);
+                assert(fresh(next0, kids, c + 1, cs, j, i) + nl(kids[c], i) >= fresh(next0, kids, c, cs, j, i));
+                self.lemma_nl_nfl(kids[c], i);
+                lemma_nfl_cov_push(next0, x, 0, i);
+                if c == 0 {
+                    // the first child continues its parent's chain: exactly its non-first leaves are fresh
+                    if kids.len() == 1 { assert(nl_seq(kids, 1, 1, i) == 0); }
+                    assert(fresh(next0, kids, 1, cs, j, i) + nfl(kids[0], i) == fresh(next0, kids, 0, cs, j, i));
+                }
+            }
+        }
+    }
+
     // ---- the heap ----
     proof fn lemma_heap_facts(&self, p: &T, k: usize, hp: HeapSelection<F>, added: Seq<int>)
         requires
@@ -246,20 +328,26 @@ impl<T: Debug + PartialEq, F: RealNumber + Debug, D: Distance<T, F>> CoverTree<T
             assert(h1.heap@.to_multiset() =~= e.insert(m));
             assert(h1.heap@.to_multiset().count(m) > 0);
             assert(h1.heap@.contains(m));
+            axiom_real::<F>();
             if 1 < k {
                 assert(h2.heap@.to_multiset() =~= e.insert(m).insert(d0));
-                assert(h2.heap@.to_multiset().subset_of(tgt));
-                assert(h2.heap@.to_multiset().count(m) > 0);
-                assert(h2.heap@.contains(m));
+                assert(h2.heap@.to_multiset() =~= tgt);
             } else {
                 assert(h1.heap@.len() == 1);
                 assert(h1.heap@[0] == m) by { assert(h1.heap@.contains(h1.heap@[0])); }
+                assert(h2.heap@.len() == 1);
                 if lt(d0, h1.heap@[0]) {
                     assert(h2.heap@.to_multiset() =~= e.insert(d0));
+                    assert(h2.heap@[0] == d0) by { assert(h2.heap@.contains(h2.heap@[0])); assert(h2.heap@.to_multiset().count(h2.heap@[0]) > 0); assert(e.insert(d0).count(h2.heap@[0]) > 0); }
                 } else {
                     assert(h2.heap@ == h1.heap@);
                 }
                 assert(h2.heap@.to_multiset().subset_of(tgt));
+                // the one left out (the sentinel, or the root's distance) is not smaller than the one kept
+                assert forall|v: F| tgt.count(v) > #[trigger] h2.heap@.to_multiset().count(v)
+                    implies forall|t: int| 0 <= t < h2.heap@.len() ==> le(#[trigger] h2.heap@[t], v) by {
+                    assert(v == m || v == d0);
+                }
             }
         }
     }
@@ -307,10 +395,28 @@ impl<T: Debug + PartialEq, F: RealNumber + Debug, D: Distance<T, F>> CoverTree<T
                 assert(hs0.to_multiset().count(v) <= ds.to_multiset().insert(m).count(v));
             }
         }
-        if hp1.n < k {
-            assert(hs0.contains(m));
-            assert(hs0.to_multiset().count(m) > 0);
-            assert(hs1.to_multiset().count(m) > 0);
+        let x0 = ds.to_multiset().insert(m);
+        let x1 = ds1.to_multiset().insert(m);
+        if hp0.n < hp0.k {
+            assert(hs1.to_multiset() =~= x1);
+        } else {
+            // the evicted root joins the left-out values; everything kept is at most the old root
+            let root = hs0[0];
+            assert forall|t: int| 0 <= t < hs1.len() implies le(#[trigger] hs1[t], root) by {
+                assert(hs1.contains(hs1[t]));
+                if hs1[t] != e {
+                    let b = choose|b: int| 0 <= b < hs0.len() && hs0[b] == hs1[t];
+                    lemma_heap_root_max(hs0, b);
+                }
+            }
+            assert forall|v: F| x1.count(v) > #[trigger] hs1.to_multiset().count(v)
+                implies forall|t: int| 0 <= t < hs1.len() ==> le(#[trigger] hs1[t], v) by {
+                if v != root {
+                    assert(x0.count(v) > hs0.to_multiset().count(v));
+                    assert(le(hs0[0], v));
+                }
+                assert forall|t: int| 0 <= t < hs1.len() implies le(#[trigger] hs1[t], v) by { assert(le(hs1[t], root)); }
+            }
         }
         lemma_has_max(hs1);
         let u1 = hmax(hs1);
@@ -348,6 +454,7 @@ impl<T: Debug + PartialEq, F: RealNumber + Debug, D: Distance<T, F>> CoverTree<T
                 let a = choose|a: int| 0 <= a < hs.len() && hs[a] == m;
                 assert(le(hs[a], u));
             }
+            if hp.n < k { assert(hs.to_multiset().count(m) > 0); }
             assert(hs.len() == k);
             let ds = self.dists(p, added);
             assert(hs.to_multiset().subset_of(ds.to_multiset())) by {
@@ -377,6 +484,66 @@ impl<T: Debug + PartialEq, F: RealNumber + Debug, D: Distance<T, F>> CoverTree<T
             assert(self.dists(p, added).drop_last() =~= self.dists(p, a0));
             lemma_count_list_prefix_eq(added, a0, g, a0.len() as int);
             assert(g(added[added.len() - 1]) == le(self.dists(p, added).last(), u));
+        }
+    }
+
+    proof fn lemma_cnt_dists_lt(&self, p: &T, added: Seq<int>, u: F)
+        ensures cnt_lt(self.dists(p, added), u) == count_list(added, self.near(p, u), added.len() as int),
+        decreases added.len()
+    {
+        let g = self.near(p, u);
+        if added.len() > 0 {
+            let a0 = added.drop_last();
+            self.lemma_cnt_dists_lt(p, a0, u);
+            assert(self.dists(p, added).drop_last() =~= self.dists(p, a0));
+            lemma_count_list_prefix_eq(added, a0, g, a0.len() as int);
+            assert(g(added[added.len() - 1]) == lt(self.dists(p, added).last(), u));
+        }
+    }
+    // at the end of the descent fewer than k data points lie strictly inside a maximum of the heap: the bound is tight
+    proof fn lemma_tight(&self, p: &T, k: usize, hp: HeapSelection<F>, added: Seq<int>, u: F)
+        requires
+            self.heap_core(p, k, hp, added),
+            is_max_of(hp.heap@, u),
+            self.near_ok(p, u, added, Seq::empty(), Seq::empty(), 0, Seq::empty(), 0),
+            1 <= k <= self.data@.len(),
+        ensures
+            count_range(self.near(p, u), self.nn()) < k, //# fewer-than-k-points-strictly-inside-the-final-bound
+    {
+        reveal(CoverTree::heap_core);
+        axiom_real::<F>();
+        let m = F::max_value_spec();
+        let n = self.nn();
+        let g = self.near(p, u);
+        let e = Seq::<(F, &Node<F>)>::empty();
+        let ek = Seq::<Node<F>>::empty();
+        let ds = self.dists(p, added);
+        // every point strictly inside has been offered
+        assert forall|j: int| 0 <= j < n && #[trigger] g(j) implies added.contains(j) by {
+            assert(fresh_kids(ek, 0, j) == 0);
+            assert(nfl_cov(e, 0, 0, j) == 0);
+            assert(fresh(e, ek, 0, e, 0, j) == 0);
+        }
+        lemma_covering_list_count(added, g, n);
+        self.lemma_cnt_dists_lt(p, added, u);
+        if hp.n < k {
+            lemma_count_list_bounds(added, g, added.len() as int);
+        } else {
+            let hs = hp.heap@;
+            hs.to_multiset_ensures();
+            ds.to_multiset_ensures();
+            let hm = hs.to_multiset();
+            assert(hs.contains(u));
+            assert(hm.count(u) > 0);
+            let h1 = hm.remove(u);
+            assert forall|v: F| lt(v, u) implies #[trigger] ds.to_multiset().count(v) <= h1.count(v) by {
+                if ds.to_multiset().insert(m).count(v) > hm.count(v) {
+                    let a = choose|a: int| 0 <= a < hs.len() && hs[a] == u;
+                    assert(le(hs[a], v));
+                }
+            }
+            lemma_dominated_count(ds, h1, u);
+            assert(hm.len() == hs.len());
         }
     }
 
@@ -429,6 +596,7 @@ impl<T: Debug + PartialEq, F: RealNumber + Debug, D: Distance<T, F>> CoverTree<T
                 && *cand[a].2 == self.data@[zs[src[a]].1.idx as int] && le(cand[a].1, u),
             cand.len() == count_list(keys(zs), self.good(p, u), zs.len() as int),
             count_range(self.good(p, u), self.nn()) >= k,
+            count_range(self.near(p, u), self.nn()) < k,
             nb.to_multiset() == cand.to_multiset(),
             nb.len() == cand.len(),
             cand.len() <= k ==> nb == cand,
@@ -586,6 +754,24 @@ impl<T: Debug + PartialEq, F: RealNumber + Debug, D: Distance<T, F>> CoverTree<T
                     assert(nl_cov(cs, 0, 1, i) == nl(self.root, i));
                 }
             }
+            // ... every other point still has its leaf to come
+            assert forall|d0: F, u: F| #[trigger] self.near_ok(p, u, gadd, Seq::empty(), Seq::empty(), 0,
+                    Seq::<(F, &Node<F>)>::empty().push((d0, &self.root)), 0) by {
+                let e = Seq::<(F, &Node<F>)>::empty();
+                let ek = Seq::<Node<F>>::empty();
+                let cs = e.push((d0, &self.root));
+                assert(cs.len() == 1 && cs[0] == (d0, &self.root));
+                assert(gadd.len() == 1 && gadd[0] == self.root.idx as int);
+                assert forall|i: int| 0 <= i < self.data@.len() && lt(self.dist_to(p, i), u) implies gadd.contains(i) || #[trigger] fresh(e, ek, 0, cs, 0, i) >= 1 by {
+                    self.lemma_nl_nfl(self.root, i);
+                    assert(nl(self.root, i) == 1);
+                    assert(nfl_cov(cs, 1, 1, i) == 0);
+                    assert(nfl_cov(cs, 0, 1, i) == nfl(self.root, i));
+                    assert(fresh_kids(ek, 0, i) == 0);
+                    assert(nfl_cov(e, 0, 0, i) == 0);
+                    if i == self.root.idx { assert(gadd[0] == i); }
+                }
+            }
             // ... and only the root's point has been offered
             assert forall|d0: F| fresh_ok(gadd, Seq::empty(), Seq::empty(), 0, #[trigger] Seq::<(F, &Node<F>)>::empty().push((d0, &self.root)), 0) by {
                 let e = Seq::<(F, &Node<F>)>::empty();
@@ -612,6 +798,7 @@ impl<T: Debug + PartialEq, F: RealNumber + Debug, D: Distance<T, F>> CoverTree<T
                 heap.wf() && heap.heap@.len() > 0,
                 self.counts_ok(p, hmax(heap.heap@), zero_set@, Seq::empty(), Seq::empty(), 0, current_cover_set@, 0), //# inv-every-point-within-the-bound-in-play-exactly-once
                 fresh_ok(gadd, Seq::empty(), Seq::empty(), 0, current_cover_set@, 0),
+                self.near_ok(p, hmax(heap.heap@), gadd, Seq::empty(), Seq::empty(), 0, current_cover_set@, 0), //# inv-every-strictly-closer-point-offered-or-still-to-come
             decreases h
 //@loopbody 1
             let ghost cs = current_cover_set@;
@@ -633,6 +820,7 @@ impl<T: Debug + PartialEq, F: RealNumber + Debug, D: Distance<T, F>> CoverTree<T
                     heap.wf() && heap.heap@.len() > 0,
                     self.counts_ok(p, hmax(heap.heap@), zero_set@, next_cover_set@, gk, gk.len() as int, cs, VERUS_ghost_iter.index@), //# inv-level-step-no-point-lost-or-doubled
                     fresh_ok(gadd, next_cover_set@, gk, gk.len() as int, cs, VERUS_ghost_iter.index@),
+                    self.near_ok(p, hmax(heap.heap@), gadd, next_cover_set@, gk, gk.len() as int, cs, VERUS_ghost_iter.index@),
 //@loopbody 2
                 let ghost j = VERUS_ghost_iter.index@;
                 proof {
@@ -641,6 +829,10 @@ impl<T: Debug + PartialEq, F: RealNumber + Debug, D: Distance<T, F>> CoverTree<T
                     self.lemma_expand(p, hmax(heap.heap@), zero_set@, next_cover_set@, cs, j);
                     lemma_fresh_kids_done(gadd, next_cover_set@, gk, cs, j);
                     lemma_fresh_expand(gadd, next_cover_set@, cs, j);
+                    lemma_fresh_eq_kids_done(next_cover_set@, gk, cs, j);
+                    self.lemma_near_same(p, hmax(heap.heap@), gadd, next_cover_set@, gk, gk.len() as int, cs, j, next_cover_set@, Seq::empty(), 0, cs, j);
+                    lemma_fresh_eq_expand(next_cover_set@, cs, j);
+                    self.lemma_near_same(p, hmax(heap.heap@), gadd, next_cover_set@, Seq::empty(), 0, cs, j, next_cover_set@, par.1.children@, 0, cs, j + 1);
                     gk = par.1.children@;
                 }
 //@loop 3
@@ -655,6 +847,7 @@ impl<T: Debug + PartialEq, F: RealNumber + Debug, D: Distance<T, F>> CoverTree<T
                         heap.wf() && heap.heap@.len() > 0,
                         self.counts_ok(p, hmax(heap.heap@), zero_set@, next_cover_set@, gk, c as int, cs, j + 1), //# inv-child-step-no-point-within-the-bound-lost-or-doubled
                         fresh_ok(gadd, next_cover_set@, gk, c as int, cs, j + 1), //# inv-no-point-offered-twice
+                        self.near_ok(p, hmax(heap.heap@), gadd, next_cover_set@, gk, c as int, cs, j + 1), //# inv-child-step-every-strictly-closer-point-offered-or-still-to-come
 //@loopbody 3
                     let ghost zero0 = zero_set@;
                     let ghost next0 = next_cover_set@;
@@ -676,6 +869,7 @@ impl<T: Debug + PartialEq, F: RealNumber + Debug, D: Distance<T, F>> CoverTree<T
                         let x = (d, child);
                         let ub = upper_bound;
                         let ci = c as int;
+                        assert(is_max_of(heap0.heap@, ub)); //# bound-used-for-pruning-is-the-current-heap-maximum
                         lemma_max_val(heap0.heap@, hmax(heap0.heap@), ub);
                         self.lemma_counts_mono(p, hmax(heap0.heap@), ub, zero0, next0, gk, ci, cs, j + 1);
                         lemma_fresh_child(gadd0, next0, gk, ci, cs, j + 1, x);
@@ -699,7 +893,7 @@ impl<T: Debug + PartialEq, F: RealNumber + Debug, D: Distance<T, F>> CoverTree<T
                             self.lemma_child_dropped(p, ub, zero0, next0, gk, ci, cs, j + 1);
                         }
                         // (b) the heap: a non-first child strictly below the bound is offered -- a point not offered before
-                        if le(d, ub.add_spec(child.max_dist)) && c > 0 && lt(d, ub) {
+                        if le(d, ub.add_spec(child.max_dist)) && c > 0 && lt(d, ub) && HeapSelection::add_post(heap0, d, heap) {
                             self.lemma_fresh_new(gadd0, next0, gk, ci, cs, j + 1);
                             self.lemma_heap_step(p, k, heap0, heap, gadd0, child.idx as int, d, ub);
                             self.lemma_fresh_offered(zero0, next0, gk, ci, cs, j + 1, x);
@@ -713,6 +907,22 @@ impl<T: Debug + PartialEq, F: RealNumber + Debug, D: Distance<T, F>> CoverTree<T
                         if self.counts_ok(p, ub, zero_set@, next_cover_set@, gk, ci + 1, cs, j + 1) && val(hmax(heap.heap@)) <= val(ub) {
                             self.lemma_counts_mono(p, ub, hmax(heap.heap@), zero_set@, next_cover_set@, gk, ci + 1, cs, j + 1);
                         }
+                        // (d) strictly closer points: child c is kept (and then offered if it is a non-first child strictly inside the
+                        // bound) or dropped with nothing within the bound below it
+                        if val(hmax(heap.heap@)) <= val(ub) {
+                            self.lemma_near_mono(p, hmax(heap0.heap@), ub, gadd0, next0, gk, ci, cs, j + 1);
+                            assert forall|t: int| 0 <= t < gadd0.len() implies gadd.contains(#[trigger] gadd0[t]) by {
+                                if gadd.len() != gadd0.len() { assert(gadd[t] == gadd0[t]); }
+                            }
+                            if gadd.len() != gadd0.len() { assert(gadd[gadd0.len() as int] == child.idx as int); }
+                            let kept = le(d, ub.add_spec(child.max_dist)) && (child.children@.len() > 0 || le(d, ub));
+                            if kept || (next_cover_set@ == next0 && forall|i: int| 0 <= i < self.data@.len() && #[trigger] nl(gk[ci], i) > 0 ==> !self.within(p, ub, i)) {
+                                if (kept ==> (next_cover_set@ == next0.push(x) || (next_cover_set@ == next0 && child.children@.len() == 0))
+                                        && (c >= 1 && lt(d, hmax(heap.heap@)) ==> gadd.contains(child.idx as int))) {
+                                    self.lemma_near_child(p, ub, hmax(heap.heap@), gadd0, gadd, next0, next_cover_set@, gk, ci, cs, j + 1, x);
+                                }
+                            }
+                        }
                     }
 //@loopend 1
             // (current_cover_set is now the next level's cover set)
@@ -721,6 +931,10 @@ impl<T: Debug + PartialEq, F: RealNumber + Debug, D: Distance<T, F>> CoverTree<T
                 self.lemma_next_level(p, hmax(heap.heap@), zero_set@, current_cover_set@, cs);
                 lemma_fresh_kids_done(gadd, current_cover_set@, gk, cs, cs.len() as int);
                 lemma_fresh_next_level(gadd, current_cover_set@, cs);
+                lemma_fresh_eq_kids_done(current_cover_set@, gk, cs, cs.len() as int);
+                self.lemma_near_same(p, hmax(heap.heap@), gadd, current_cover_set@, gk, gk.len() as int, cs, cs.len() as int, current_cover_set@, Seq::empty(), 0, cs, cs.len() as int);
+                lemma_fresh_eq_next_level(current_cover_set@, cs);
+                self.lemma_near_same(p, hmax(heap.heap@), gadd, current_cover_set@, Seq::empty(), 0, cs, cs.len() as int, Seq::empty(), Seq::empty(), 0, current_cover_set@, 0);
                 h = h - 1;
             }
 //@loop 4
@@ -732,6 +946,7 @@ impl<T: Debug + PartialEq, F: RealNumber + Debug, D: Distance<T, F>> CoverTree<T
                 self.heap_core(p, k, heap, gadd),
                 is_max_of(heap.heap@, upper_bound),
                 self.counts_ok(p, hmax(heap.heap@), zero_set@, Seq::empty(), Seq::empty(), 0, current_cover_set@, 0),
+                self.near_ok(p, hmax(heap.heap@), gadd, Seq::empty(), Seq::empty(), 0, current_cover_set@, 0),
                 cand == neighbors@,
                 src.len() == neighbors@.len(),
                 forall|a: int| 0 <= a < src.len() ==> 0 <= #[trigger] src[a] < VERUS_ghost_iter.index@,
@@ -758,6 +973,8 @@ impl<T: Debug + PartialEq, F: RealNumber + Debug, D: Distance<T, F>> CoverTree<T
             assert(current_cover_set@ =~= Seq::empty());
             self.lemma_counts_mono(p, hmax(heap.heap@), upper_bound, zero_set@, Seq::empty(), Seq::empty(), 0, Seq::empty(), 0);
             self.lemma_enough(p, k, heap, gadd, upper_bound);
+            self.lemma_near_mono(p, hmax(heap.heap@), upper_bound, gadd, Seq::empty(), Seq::empty(), 0, Seq::empty(), 0);
+            self.lemma_tight(p, k, heap, gadd, upper_bound);
             self.lemma_result(p, k, upper_bound, zero_set@, src, cand, neighbors@);
         }
 //@end
